@@ -229,7 +229,12 @@ def op_add_data_column(g, dv, protected):
     choices += ["Ref", "Ref", "RefList"]
   ctype = g.rng.choice(choices)
   if ctype in ("Ref", "RefList"):
-    ctype = "%s:%s" % (ctype, g.rng.choice(targets).tableId)
+    sums = [st for st in dv.summary_tables() if st.row_ids]
+    if sums and g.cfg.get("ref_to_summary_p") and g.rng.random() < g.cfg["ref_to_summary_p"]:
+      # a reference to the rows of a summary table: they come and go with the source's data
+      ctype = "Ref:%s" % g.rng.choice(sums).tableId
+    else:
+      ctype = "%s:%s" % (ctype, g.rng.choice(targets).tableId)
   info = _col_info(g, dv, ctype)
   return [["AddColumn", t.tableId, g.new_col_id(), info]]
 
@@ -256,7 +261,7 @@ def _numeric(c):
 
 def _keyable(c):
   # lookup keys / sort columns / group-by: data columns of comparable scalar types
-  return (not c.isFormula and not c.formula and c.pure in ("Int", "Numeric", "Text", "Choice", "Date")
+  return (not c.isFormula and not c.formula and c.pure in ("Int", "Numeric", "Text", "Choice", "Date", "Bool")
           and not c.summarySourceCol)
 
 
@@ -266,7 +271,7 @@ def gen_formula(g, dv, t, limit_ref=None, kinds=None):
   kinds = list(kinds or g.cfg.get("formula_kinds",
                ["arith", "arith", "str", "ref", "ref", "reflist", "lookup", "lookup", "lookupone",
                 "count", "all", "twopath", "twopath", "contains", "find", "prevnext", "lazy",
-                "swallow"]))
+                "swallow", "sumlookup"]))
   rng.shuffle(kinds)
   own = _earlier(dv, t, limit_ref)
   for kind in kinds:
@@ -290,6 +295,19 @@ def gen_formula(g, dv, t, limit_ref=None, kinds=None):
           "(lambda v: v + ($%s or 0))(rec.%s or 0)" % (a, b),
           "IF(True, rec.%s, $%s)" % (a, b),
         ])
+    elif kind == "sumlookup":
+      # a formula that names a summary table (which is renamed along with its source table and
+      # with its group-by columns)
+      cands = []
+      for st in dv.summary_tables():
+        if st.summarySource != t.ref:
+          continue
+        gb = [(c.colId, dv.col_by_ref.get(c.summarySourceCol)) for c in st.cols.values() if c.summarySourceCol]
+        if gb and all(sc is not None and sc.pure not in ("ChoiceList", "RefList") for _cid, sc in gb):
+          cands.append((st, gb))
+      if cands:
+        st, gb = rng.choice(cands)
+        return "%s.lookupOne(%s).count" % (st.tableId, ", ".join("%s=$%s" % (cid, sc.colId) for cid, sc in sorted(gb)))
     elif kind == "swallow":
       # a formula that swallows whatever reading another formula column raises (the engine's own
       # "not computed yet" signal included) and then reads on
@@ -547,7 +565,9 @@ def gen_prevnext(g, dv, t, limit_ref):
 def _const_for(rng, c):
   return {"Int": rng.choice(INT_POOL), "Numeric": rng.choice(NUM_POOL),
           "Text": rng.choice(TEXT_POOL), "Choice": rng.choice(CHOICES),
-          "Date": None}.get(c.pure, None)
+          # a Date column is looked up by timestamp (any time of that day), a Bool column also by None
+          "Date": rng.choice(DATE_POOL) + rng.choice([0, 3600, 86399]),
+          "Bool": rng.choice([None, True, False])}.get(c.pure, None)
 
 
 def op_add_formula_column(g, dv, protected):
@@ -555,6 +575,14 @@ def op_add_formula_column(g, dv, protected):
   if not ts:
     return None
   t = g.rng.choice(ts)
+  refs = [c for c in _earlier(dv, t) if c.pure in ("Ref", "RefList") and c.target in dv.tables
+          and not c.isFormula and not dv.tables[c.target].is_summary]
+  if refs and g.rng.random() < 0.12:
+    # a formula column of reference type (it keeps its own back-references, like a data column),
+    # which later formulas can read through
+    r = g.rng.choice(refs)
+    return [["AddColumn", t.tableId, g.new_col_id("f"), {"type": r.type, "isFormula": True,
+                                                         "formula": "$%s" % r.colId}]]
   f = gen_formula(g, dv, t)
   if not f:
     return None
@@ -582,7 +610,8 @@ def op_remove_column(g, dv, protected):
 
 
 def op_rename_column(g, dv, protected):
-  cands = [(t, c) for t in data_tables(dv) for c in t.user_cols()]
+  legacy = fx.used_in_sort_by(dv)
+  cands = [(t, c) for t in data_tables(dv) for c in t.user_cols() if (t.tableId, c.colId) not in legacy]
   if not cands:
     return None
   t, c = g.rng.choice(cands)
@@ -685,10 +714,12 @@ def op_add_view_section(g, dv, protected):
            None, None]]
 
 
-def _groupby_candidates(dv, t):
+def _groupby_candidates(dv, t, g=None):
+  pures = ("Int", "Text", "Choice", "ChoiceList", "Bool", "Date")
+  if g is not None and g.cfg.get("groupby_refs"):
+    pures += ("Ref",)
   return [c for c in t.user_cols()
-          if not c.isFormula and not c.formula
-          and c.pure in ("Int", "Text", "Choice", "ChoiceList", "Bool", "Date")]
+          if not c.isFormula and not c.formula and not c.reverseCol and c.pure in pures]
 
 
 def op_add_summary(g, dv, protected):
@@ -696,7 +727,7 @@ def op_add_summary(g, dv, protected):
   if not ts or len(dv.summary_tables()) >= g.cfg.get("max_summaries", 3):
     return None
   t = g.rng.choice(ts)
-  cands = _groupby_candidates(dv, t)
+  cands = _groupby_candidates(dv, t, g)
   k = g.rng.randint(0, min(2, len(cands)))
   gb = sorted(c.ref for c in g.rng.sample(cands, k))
   views = [r for r, _rec in dv.records("_grist_Views")]
@@ -721,7 +752,7 @@ def op_update_summary(g, dv, protected):
   src = dv.table_by_ref.get(st.summarySource)
   if src is None:
     return None
-  cands = _groupby_candidates(dv, src)
+  cands = _groupby_candidates(dv, src, g)
   k = g.rng.randint(0, min(2, len(cands)))
   gb = sorted(c.ref for c in g.rng.sample(cands, k))
   return [["UpdateSummaryViewSection", r, gb]]
@@ -967,7 +998,28 @@ def op_add_field(g, dv, protected):
   return [["AddRecord", "_grist_Views_section_field", None, {"parentId": sid, "colRef": c.ref}]]
 
 
+def op_retype_and_rename(g, dv, protected):
+  """One user-action group that changes a column's type and renames it (two actions, or one
+  update of its metadata record): what is pending for the column under its old name has to follow
+  it to the new one."""
+  cands = [(t, c) for t in data_tables(dv) for c in t.user_cols()
+           if (t.tableId, c.colId) not in protected and not c.reverseCol and not c.summarySourceCol
+           and not c.is_empty and c.pure in ("Any", "Int", "Numeric", "Text")]
+  legacy = fx.used_in_sort_by(dv)
+  cands = [(t, c) for (t, c) in cands if (t.tableId, c.colId) not in legacy]
+  if not cands:
+    return None
+  t, c = g.rng.choice(cands)
+  new_type = g.rng.choice([x for x in ("Text", "Int", "Numeric", "Any") if x != c.pure])
+  new_id = g.new_col_id("r")
+  if g.rng.random() < 0.4:
+    return [["UpdateRecord", "_grist_Tables_column", c.ref, {"type": new_type, "colId": new_id}]]
+  return [["ModifyColumn", t.tableId, c.colId, {"type": new_type}],
+          ["RenameColumn", t.tableId, c.colId, new_id]]
+
+
 OPS = {
+  "retype_and_rename": op_retype_and_rename,
   "add_field": op_add_field,
   "error_trigger": op_error_trigger,
   "ref_trigger": op_ref_trigger,
@@ -1010,6 +1062,7 @@ DEFAULT_WEIGHTS = {
   "add_summary_formula": 1, "remove_view_things": 1, "add_view": 1, "page_indent": 1, "set_sort": 1,
   "add_reverse": 1, "display_formula": 1, "add_rule": 1, "duplicate_table": 1,
   "trigger_column": 1, "derived_trigger": 0, "ref_trigger": 0, "error_trigger": 0, "add_field": 0,
+  "retype_and_rename": 1,
 }
 
 
